@@ -113,7 +113,7 @@ func startWorker(id int, hs harnessSpec, params map[string]int, known []string) 
 		args = append(args, "-steplimit", strconv.FormatInt(hs.StepLimit, 10))
 	}
 	cmd := exec.Command(self, args...)
-	cmd.Env = append(os.Environ(), "GOMAXPROCS=2", "GOGC="+envOr("SYMGO_GOGC", "50"), "GODEBUG=disablethp=1")
+	cmd.Env = append(os.Environ(), "GOMAXPROCS=2", "GOGC="+envOr("SYMGO_GOGC", "200"), "GODEBUG=disablethp=1")
 	if hs.OneShot != "" {
 		cmd.Env = append(cmd.Env, "SYMGO_ONESHOT="+hs.OneShot)
 	}
